@@ -102,6 +102,14 @@ def gen_root_cases(ctx):
     cases.append(dict(kind="root", d=d, cr=cr, ps=ps, p=rng.choice([1, 2, 3, 4, 6, 8]),
                       relative=bool(rng.below(2)), ridge_epsilon=rng.choice([1e-6, 1e-3, 2.0 ** -10]),
                       seed=rng.next(), spread=rng.choice([1.0, 30.0, 1e4])))
+  # magnitude of the statistics: top eigenvalue `scale` (1 = historical generator); with the relative
+  # ridge a top eigenvalue below 1 separates the scaled ridge from the configured one, and eigenvalues
+  # below the ridge exercise the eigenvalue floor (added after a seeded change was missed)
+  for (d, cr, ps) in combos[:(24 if quick else 120)]:
+    cases.append(dict(kind="root", d=d, cr=cr, ps=ps, p=rng.choice([1, 2, 4]),
+                      relative=bool(rng.below(4)), ridge_epsilon=rng.choice([1e-6, 1e-3]),
+                      seed=rng.next(), spread=rng.choice([30.0, 1e4]),
+                      scale=rng.choice([1e-3, 1e-6, 1e3, 2.0 ** -10])))
   # all-padding block: the packed root must be the zero matrix
   cases.append(dict(kind="root", d=5, cr=1, ps=0, p=2, relative=False, ridge_epsilon=1e-6,
                     seed=rng.next(), spread=1.0))
